@@ -268,7 +268,19 @@ func (e *Env) tr(x Expr) Val {
 		}
 		body := n.boolOf(x.Body)
 		if x.Forall {
-			return Val{T: fmt.Sprintf("(forall (%s) %s)", strings.Join(decl, " "), implies(and(rng...), body)), S: "Bool"}
+			inner := implies(and(rng...), body)
+			if len(x.Vars) == 1 {
+				// triggers: every element address idx(off, k) with the bare bound
+				// variable (alternatives); keeps instantiation arithmetic-free
+				if pats := idxPatterns(inner, q("qv."+x.Vars[0])); len(pats) > 0 {
+					var ps []string
+					for _, p := range pats {
+						ps = append(ps, ":pattern ("+p+")")
+					}
+					inner = "(! " + inner + " " + strings.Join(ps, " ") + ")"
+				}
+			}
+			return Val{T: fmt.Sprintf("(forall (%s) %s)", strings.Join(decl, " "), inner), S: "Bool"}
 		}
 		return Val{T: fmt.Sprintf("(exists (%s) %s)", strings.Join(decl, " "), and(append(rng, body)...)), S: "Bool"}
 	case *ESel:
@@ -393,7 +405,7 @@ func (e *Env) pkgObj(o types.Object) Val {
 		}
 	case *types.Var:
 		if gl := g.P.globalOf(o); gl != nil {
-			ref := Val{T: fmt.Sprint(g.P.globalRef(gl)), S: "Int", G: gl.Type()}
+			ref := Val{T: fmt.Sprint(g.P.globalRef(gl) * refStride), S: "Int", G: gl.Type()}
 			return e.derefPtr(ref, o.Type())
 		}
 	}
@@ -568,6 +580,55 @@ func (e *Env) binary(x *EBinary) Val {
 	return Val{}
 }
 
+// idxPatterns finds the terms "(idx <off> v)" in an s-expression whose offset
+// does not mention the variable v and contains no ite.
+func idxPatterns(s, v string) []string {
+	seen := map[string]bool{}
+	var out []string
+	for i := 0; i+5 <= len(s); i++ {
+		if !strings.HasPrefix(s[i:], "(idx ") {
+			continue
+		}
+		depth := 0
+		j := i
+		inBar := false
+		for ; j < len(s); j++ {
+			c := s[j]
+			if c == '|' {
+				inBar = !inBar
+			}
+			if inBar {
+				continue
+			}
+			if c == '(' {
+				depth++
+			} else if c == ')' {
+				depth--
+				if depth == 0 {
+					break
+				}
+			}
+		}
+		if j >= len(s) {
+			break
+		}
+		term := s[i : j+1]
+		if !strings.HasSuffix(term, " "+v+")") {
+			if strings.Contains(term, v) {
+				return nil // compound index over the variable: leave trigger selection to the solver
+			}
+			continue
+		}
+		off := term[len("(idx ") : len(term)-len(v)-2]
+		if strings.Contains(off, v) || strings.Contains(off, "(ite ") || seen[term] {
+			continue
+		}
+		seen[term] = true
+		out = append(out, term)
+	}
+	return out
+}
+
 func isNumeral(t string) bool {
 	if t == "" {
 		return false
@@ -634,7 +695,7 @@ func (e *Env) call(x *ECall) Val {
 		case "Iface":
 			t = sx("i-val", v.T)
 		}
-		return Val{T: sx(">", t, e.old.alloc), S: "Bool"}
+		return Val{T: sx(">=", t, sx("+", e.old.alloc, fmt.Sprint(refStride))), S: "Bool"}
 	case "allocated":
 		v := arg(0)
 		t := v.T
